@@ -37,6 +37,10 @@ DEVICE_CATS = {"kernel", "gpu_memcpy", "gpu_memset", "cuda_sync"}
 def host_tid_1_or_2(case: Dict[str, Any], violations: List[str]) -> bool:
     """The trace has a host thread whose thread id is 1 or 2: the call-graph's per-thread root index -abs(tid)
     then coincides with its sentinels NULL_NODE_INDEX (-1) / NON_EXISTENT_NODE_INDEX (-2)."""
+    # what the finding is about: heights, kernel aggregates and depths *below* the thread's top level. A top-level event
+    # of such a thread still has depth 0 on the recorded tree; a violation of that clause is not this finding.
+    if any("top-level event" in v for v in violations):
+        return False
     for key in ("ranks", "test_ranks"):
         for ev in (case.get(key) or {}).values():
             for e in ev:
